@@ -44,6 +44,10 @@ def check(ctx: Ctx):
     from ..rules import collections as _colx
 
     _colx.check_list_appends(ctx)
+    from ..rules import support
+
+    support.check_track_accessors(ctx)
+    ctx.expect("ACCESSOR", 4)
     ctx.expect("METRIC", 4)
     ctx.expect("STRICT", 1)
     ctx.expect("PATHCOUNT", 3)
